@@ -859,24 +859,28 @@ Proof. intros s (n & m & d & tr & H). eapply inv_run; eauto using inv_init. Qed.
 (* ====================================================================================== *)
 (* Quiescent states: no label is enabled.  (The reader of every events channel is part of  *)
 (* the system: LSubRead is its label, so "terminal" includes "readers keep reading".)      *)
-Definition terminal (s : state) : Prop := forall l, step s l = None.
-
-Lemma terminal_dead : forall s, Inv s -> terminal s -> dead s = true.
-Proof.
-  intros s I T. specialize (T LConnDie). unfold step in T. rewrite (iA s I) in T. simpl in T.
-  destruct (dead s); auto; discriminate.
-Qed.
+(* labels of goroutines that exist already: everything except the environment (a new message,
+   the loss itself, a cancellation, the user's Close) and the start of a new call, subscription
+   or callback registration.  Indices are those of the scenario. *)
+Definition internal (l : label) (s : state) : Prop :=
+  match l with
+  | LConnDie | LCancel _ | LPeerMsg _ | LUserClose1 | LCallMake _ | LSubscribe _ | LOnDisc _ => False
+  | LCallSend c | LCallSendFail c | LCallRemove c | LCallSel c _ | LCallCancelSend c => c < nn s
+  | LSubTake i | LSubClosed i | LSubRead i => i < mm s
+  | _ => True
+  end.
+(* the connection is lost and nothing more can happen by itself *)
+Definition terminal (s : state) : Prop := lost s = true /\ forall l, internal l s -> step s l = None.
 
 Lemma terminal_proc : forall s, Inv s -> terminal s -> proc s = PDone.
 Proof.
-  intros s I T. pose proof (terminal_dead s I T) as Hd.
-  assert (Hl : lost s = true) by (unfold lost; rewrite Hd; reflexivity).
+  intros s I T. assert (Hl : lost s = true) by apply T.
   destruct (proc s) eqn:Ep; auto; exfalso.
-  - specialize (T LReadFail). unfold step in T. rewrite (iA s I) in T. simpl in T. rewrite Ep, Hl in T. discriminate.
-  - specialize (T LDispatch). unfold step in T. rewrite (iA s I) in T. simpl in T. rewrite Ep in T.
+  - assert (T1 := proj2 T LReadFail); simpl in T1; specialize (T1 ltac:(auto)). unfold step in T1. rewrite (iA s I) in T1. simpl in T1. rewrite Ep, Hl in T1. discriminate.
+  - assert (T1 := proj2 T LDispatch); simpl in T1; specialize (T1 ltac:(auto)). unfold step in T1. rewrite (iA s I) in T1. simpl in T1. rewrite Ep in T1.
     destruct (disp m (table s) s); discriminate.
-  - specialize (T LProcClose1). unfold step in T. rewrite (iA s I) in T. simpl in T. rewrite Ep in T. discriminate.
-  - specialize (T LProcClose2). unfold step in T. rewrite (iA s I) in T. simpl in T. rewrite Ep in T. discriminate.
+  - assert (T1 := proj2 T LProcClose1); simpl in T1; specialize (T1 ltac:(auto)). unfold step in T1. rewrite (iA s I) in T1. simpl in T1. rewrite Ep in T1. discriminate.
+  - assert (T1 := proj2 T LProcClose2); simpl in T1; specialize (T1 ltac:(auto)). unfold step in T1. rewrite (iA s I) in T1. simpl in T1. rewrite Ep in T1. discriminate.
 Qed.
 
 Lemma terminal_closers : forall s, Inv s -> terminal s -> forall o e ph, In (o, e, ph) (closers s) -> ph = 2.
@@ -884,7 +888,7 @@ Proof.
   intros s I T o e ph Hin. pose proof (proj1 (iE s I o e ph Hin)) as Hle2.
   destruct (Nat.eq_dec ph 2) as [|Hne]; auto. exfalso.
   apply In_nth_error in Hin. destruct Hin as [k Hk].
-  specialize (T (LCloserStep k)). unfold step in T. rewrite (iA s I) in T. simpl in T. rewrite Hk in T.
+  assert (T1 := proj2 T (LCloserStep k)); simpl in T1; specialize (T1 ltac:(auto)). unfold step in T1. rewrite (iA s I) in T1. simpl in T1. rewrite Hk in T1.
   destruct ph as [|[|ph]]; try lia; try discriminate.
   destruct (run_closer s o e) eqn:Er; try discriminate.
   destruct o as [c|i|j]; simpl in Er; try discriminate. destruct e; try discriminate.
@@ -900,20 +904,20 @@ Proof.
 Qed.
 
 (* every call has returned or was never started *)
-Lemma terminal_calls : forall s, Inv s -> terminal s -> forall c, cp s c = CIdle \/ exists b, cp s c = CDone b.
+Lemma terminal_calls : forall s, Inv s -> terminal s -> forall c, c < nn s -> cp s c = CIdle \/ exists b, cp s c = CDone b.
 Proof.
-  intros s I T c. pose proof (terminal_proc s I T) as Hp. pose proof (terminal_dead s I T) as Hd.
-  assert (Hl : lost s = true) by (unfold lost; rewrite Hd; reflexivity).
+  intros s I T c Hlt. pose proof (terminal_proc s I T) as Hp.
+  assert (Hl : lost s = true) by apply T.
   destruct (cp s c) eqn:Ec; eauto; exfalso.
-  - specialize (T (LCallSendFail c)). unfold step in T. rewrite (iA s I) in T. simpl in T. rewrite Ec, Hl in T. discriminate.
+  - assert (T1 := proj2 T (LCallSendFail c)); simpl in T1; specialize (T1 ltac:(auto)). unfold step in T1. rewrite (iA s I) in T1. simpl in T1. rewrite Ec, Hl in T1. discriminate.
   - assert (Ha : act s (OCall c)) by (simpl; rewrite Ec; exact Logic.I).
     destruct (iK s I _ Ha) as [H|[H|H]].
-    + specialize (T (LCallSel c BReply)). unfold step in T. rewrite (iA s I) in T. simpl in T. rewrite Ec, H in T.
+    + assert (T1 := proj2 T (LCallSel c BReply)); simpl in T1; specialize (T1 ltac:(auto)). unfold step in T1. rewrite (iA s I) in T1. simpl in T1. rewrite Ec, H in T1.
       destruct (q (ch s (OCall c))); discriminate.
     + eapply terminal_nopend; eauto.
     + apply (iK2 s I c Ec H). exact Hp.
-  - specialize (T (LCallRemove c)). unfold step in T. rewrite (iA s I) in T. simpl in T. rewrite Ec in T. discriminate.
-  - specialize (T (LCallCancelSend c)). unfold step in T. rewrite (iA s I) in T. simpl in T. rewrite Ec in T. discriminate.
+  - assert (T1 := proj2 T (LCallRemove c)); simpl in T1; specialize (T1 ltac:(auto)). unfold step in T1. rewrite (iA s I) in T1. simpl in T1. rewrite Ec in T1. discriminate.
+  - assert (T1 := proj2 T (LCallCancelSend c)); simpl in T1; specialize (T1 ltac:(auto)). unfold step in T1. rewrite (iA s I) in T1. simpl in T1. rewrite Ec in T1. discriminate.
 Qed.
 
 (* ---------- what the channel operations leave alone ---------- *)
@@ -1074,10 +1078,19 @@ Proof.
   - exfalso. apply (Hg H). apply terminal_proc; auto.
 Qed.
 
-Lemma subs_closed : forall s0 tr s i, Inv s0 -> lost s0 = false -> sp s0 i <> SNone ->
+Lemma sizes_run : forall tr s s', run tr s = Some s' -> nn s' = nn s /\ mm s' = mm s /\ dd s' = dd s.
+Proof.
+  induction tr as [|l r IH]; intros s s' H; simpl in H.
+  - inversion H; subst; auto.
+  - destruct (step s l) eqn:E; try discriminate. destruct (step_mono _ _ _ E) as (_ & _ & _ & _ & N1 & N2 & N3).
+    destruct (IH _ _ H) as (M1 & M2 & M3). repeat split; congruence.
+Qed.
+
+Lemma subs_closed : forall s0 tr s i, Inv s0 -> lost s0 = false -> sp s0 i <> SNone -> i < mm s0 ->
   run tr s0 = Some s -> terminal s -> evclosed s i = true.
 Proof.
-  intros s0 tr s i I0 Hl Hr Hrun T.
+  intros s0 tr s i I0 Hl Hr Hlt0 Hrun T.
+  assert (Hlt : i < mm s) by (destruct (sizes_run _ _ _ Hrun) as (_ & M & _); rewrite M; exact Hlt0).
   assert (I : Inv s) by (eapply inv_run; eauto).
   assert (Hc : qclosed (ch s (OSub i)) = true).
   { apply (early_handler_closed s0 tr s (OSub i) I0 Hl Hr); auto. intros c; discriminate. }
@@ -1086,10 +1099,10 @@ Proof.
   apply (iG s I). destruct (sp s i) eqn:Es; auto; exfalso.
   - congruence.
   - destruct (q (ch s (OSub i))) as [|t r] eqn:Eq.
-    + specialize (T (LSubClosed i)). unfold step in T. rewrite (iA s I) in T. simpl in T. rewrite Es, Eq, Hc in T.
+    + assert (T1 := proj2 T (LSubClosed i)); simpl in T1; specialize (T1 ltac:(auto)). unfold step in T1. rewrite (iA s I) in T1. simpl in T1. rewrite Es, Eq, Hc in T1.
       destruct (evclosed s i); discriminate.
-    + specialize (T (LSubTake i)). unfold step in T. rewrite (iA s I) in T. simpl in T. rewrite Es, Eq in T. discriminate.
-  - specialize (T (LSubRead i)). unfold step in T. rewrite (iA s I) in T. simpl in T. rewrite Es in T. discriminate.
+    + assert (T1 := proj2 T (LSubTake i)); simpl in T1; specialize (T1 ltac:(auto)). unfold step in T1. rewrite (iA s I) in T1. simpl in T1. rewrite Es, Eq in T1. discriminate.
+  - assert (T1 := proj2 T (LSubRead i)); simpl in T1; specialize (T1 ltac:(auto)). unfold step in T1. rewrite (iA s I) in T1. simpl in T1. rewrite Es in T1. discriminate.
 Qed.
 
 Lemma cb_once : forall s0 tr s j, Inv s0 -> lost s0 = false -> cbreg s0 j = true ->
@@ -1206,15 +1219,16 @@ Qed.
    returns an error: after the loss, in every quiescent state reached by any schedule, a call
    for which no Reply had been read from the stream has returned and its result is an error
    (or it was never started). *)
-Lemma calls_fail : forall s tr s' c, Inv s -> lost s = true -> ~ can_ok s c ->
+Lemma calls_fail : forall s tr s' c, Inv s -> lost s = true -> ~ can_ok s c -> c < nn s ->
   run tr s = Some s' -> terminal s' ->
   (cp s c <> CIdle -> cp s' c = CDone false) /\ (cp s' c = CIdle \/ cp s' c = CDone false).
 Proof.
-  intros s tr s' c I Hl Hn Hrun T.
+  intros s tr s' c I Hl Hn Hlt0 Hrun T.
+  assert (Hlt : c < nn s') by (destruct (sizes_run _ _ _ Hrun) as (M & _); rewrite M; exact Hlt0).
   assert (I' : Inv s') by (eapply inv_run; eauto).
   assert (Hb : cp s' c <> CDone true).
   { intro Hd. apply Hn. eapply can_ok_back_run; eauto. left; auto. }
-  destruct (terminal_calls s' I' T c) as [H|[b H]].
+  destruct (terminal_calls s' I' T c Hlt) as [H|[b H]].
   - split; auto. intro Hs. exfalso. apply (reg_run tr s s' (OCall c) Hrun Hs). exact H.
   - destruct b; [congruence|]. split; auto.
 Qed.
@@ -1282,7 +1296,7 @@ Proof.
   - left. rewrite updo_other by congruence. rewrite upd_other by auto. eauto.
 Qed.
 
-Lemma reply_delivered : forall tr s s' c, Inv s -> holds_reply s c -> run tr s = Some s' ->
+Lemma reply_delivered : forall tr s s' c, Inv s -> holds_reply s c -> c < nn s -> run tr s = Some s' ->
   ~ In (LCallSendFail c) tr -> ~ In (LCancel c) tr -> terminal s' -> cp s' c = CDone true.
 Proof.
   assert (G : forall tr s s' c, Inv s -> holds_reply s c \/ cp s c = CDone true -> run tr s = Some s' ->
@@ -1297,10 +1311,11 @@ Proof.
         * right. eapply done_stable; eauto.
       + intro; apply N1; simpl; auto.
       + intro; apply N2; simpl; auto. }
-  intros tr s s' c I H Hrun N1 N2 T.
+  intros tr s s' c I H Hlt0 Hrun N1 N2 T.
+  assert (Hlt : c < nn s') by (destruct (sizes_run _ _ _ Hrun) as (M & _); rewrite M; exact Hlt0).
   assert (I' : Inv s') by (eapply inv_run; eauto).
   destruct (G tr s s' c I (or_introl H) Hrun N1 N2) as [(_ & Hpc & _)|Hd]; auto.
-  exfalso. destruct (terminal_calls s' I' T c) as [Hc|[b Hc]]; destruct Hpc as [[k Hk]|Hw]; congruence.
+  exfalso. destruct (terminal_calls s' I' T c Hlt) as [Hc|[b Hc]]; destruct Hpc as [[k Hk]|Hw]; congruence.
 Qed.
 
 (* the early-reply schedule: the handler is in the table before Send is attempted, so a Reply
@@ -1331,3 +1346,93 @@ Proof.
   - destruct (ctl_close_sync (enqueue s0 (OCall c) TReply) (OCall c)) as (_ & _ & _ & _ & _ & _ & _ & A8 & _).
     rewrite A8, B8. exact Hcan.
 Qed.
+
+(* ---------- the executable quiescence test used by the correspondence run ---------- *)
+Definition quietb (s : state) : bool :=
+  lost s && forallb (fun l => match step s l with None => true | Some _ => false end) (drain_labels s).
+
+Lemma internal_in : forall l s, internal l s -> In l (drain_labels s) \/ step s l = None.
+Proof.
+  intros l s H. unfold drain_labels.
+  assert (G : is_start l = false -> In l (all_labels s) -> In l (filter (fun l0 => negb (is_start l0)) (all_labels s))).
+  { intros Hs Hin. apply filter_In. rewrite Hs. auto. }
+  unfold all_labels.
+  destruct l; simpl in H; try contradiction.
+  1-5: left; apply G; auto; apply in_app_iff; left; apply in_flat_map; exists c; split; [apply in_seq; lia|simpl; auto 10].
+  1: destruct b; simpl; auto 10.
+  1-3: left; apply G; auto; apply in_app_iff; right; apply in_app_iff; left; apply in_flat_map; exists i;
+       split; [apply in_seq; lia|simpl; auto 10].
+  1-5: left; apply G; auto; apply in_app_iff; right; apply in_app_iff; right; apply in_app_iff; right; apply in_app_iff; left; simpl; auto 10.
+  destruct (lt_dec k (length (closers s))) as [Hk|Hk].
+  - left; apply G; auto. do 4 (apply in_app_iff; right). apply in_map. apply in_seq. lia.
+  - right. unfold step. destruct (panicked s); auto. simpl.
+    destruct (nth_error (closers s) k) eqn:E; auto. exfalso. apply Hk. apply nth_error_Some. congruence.
+Qed.
+
+Lemma quietb_terminal : forall s, quietb s = true -> terminal s.
+Proof.
+  intros s H. unfold quietb in H. apply andb_true_iff in H. destruct H as [Hl Hq]. split; auto.
+  intros l Hi. destruct (internal_in l s Hi) as [Hin|]; auto.
+  rewrite forallb_forall in Hq. specialize (Hq l Hin). destruct (step s l); auto; discriminate.
+Qed.
+
+(* ---------- termination: a measure that every label except LPeerMsg decreases ---------- *)
+Definition inrange (s : state) (o : owner) : Prop :=
+  match o with OCall c => c < nn s | OSub i => i < mm s | OCb j => j < dd s end.
+Definition bounded (s : state) : Prop := forall o, reg s o -> inrange s o.
+
+Lemma bounded_init : forall n m d, bounded (init n m d).
+Proof. intros n m d o H. destruct o; simpl in H; congruence. Qed.
+
+Lemma bounded_step : forall s l s', bounded s -> step s l = Some s' -> bounded s'.
+Proof.
+  intros s l s' B H. destruct (step_mono _ _ _ H) as (_ & _ & _ & _ & N1 & N2 & N3).
+  intros o Ho. assert (G : reg s o -> inrange s' o).
+  { intro Hr. specialize (B o Hr). destruct o; simpl in *; congruence. }
+  revert Ho. step_cases H; simpl in *.
+  all: try match goal with E : disp ?m ?tb ?s0 = (?t1, ?s1) |- _ =>
+         pose proof (ctl_disp m tb s0) as CD; rewrite E in CD; simpl in CD; destruct CD as (A1 & A2 & A3 & _) end.
+  all: try match goal with E : run_closer ?s0 ?o ?e = Some ?s1 |- _ => destruct (ctl_run_closer _ _ _ _ E) as (A1 & A2 & A3 & _) end.
+  all: try match goal with |- context[close_chan ?s0 ?o] => destruct (ctl_close_chan s0 o) as (A1 & A2 & A3 & _) end.
+  all: try (destruct (ctl_remove_handler s slot) as (A1 & A2 & A3 & _)).
+  all: try match goal with Hb : _ && negb _ = true |- _ =>
+         apply andb_true_iff in Hb; destruct Hb as [? Hb]; apply negb_true_iff in Hb end.
+  all: intro Ho; destruct o as [c0|i0|j0]; simpl in *; rewrite ?A1, ?A2, ?A3 in Ho; try (apply G; simpl; exact Ho).
+  all: revert Ho; updc; intro Ho; try (apply G; simpl; auto; congruence).
+  all: try (apply Nat.ltb_lt; assumption).
+Qed.
+
+Lemma bounded_run : forall tr s s', bounded s -> run tr s = Some s' -> bounded s'.
+Proof.
+  induction tr as [|l r IH]; intros s s' B H; simpl in H.
+  - inversion H; subst; auto.
+  - destruct (step s l) eqn:E; try discriminate. eauto using bounded_step.
+Qed.
+
+(* ---------- a concrete run meeting every hypothesis above ---------- *)
+Definition ex_pre : list label :=
+  [LOnDisc 0; LSubscribe 0; LCallMake 0; LCallMake 1; LPeerMsg (MFor (OCall 0) TReply); LDispatch;
+   LCallSend 0; LCallSend 1; LPeerMsg (MFor (OSub 0) TEvent); LDispatch].
+Definition ex_s0 : state := match run ex_pre (init 2 1 1) with Some s => s | None => init 0 0 0 end.
+Definition ex_tr : list label := LConnDie :: fst (drain_tr 60 (match step ex_s0 LConnDie with Some s => s | None => ex_s0 end)).
+Definition ex_s : state := match run ex_tr ex_s0 with Some s => s | None => init 0 0 0 end.
+
+Lemma ex_reachable : reachable ex_s0.
+Proof.
+  exists 2, 1, 1, ex_pre. unfold ex_s0. destruct (run ex_pre (init 2 1 1)) eqn:E; [reflexivity|].
+  exfalso. vm_compute in E. discriminate.
+Qed.
+Lemma ex_run : run ex_tr ex_s0 = Some ex_s.
+Proof.
+  unfold ex_s. destruct (run ex_tr ex_s0) eqn:E; [reflexivity|]. exfalso. vm_compute in E. discriminate.
+Qed.
+Lemma ex_terminal : terminal ex_s.
+Proof. apply quietb_terminal. vm_compute. reflexivity. Qed.
+Lemma ex_before : lost ex_s0 = false /\ sp ex_s0 0 <> SNone /\ cbreg ex_s0 0 = true /\ cp ex_s0 0 = CWait /\ cp ex_s0 1 = CWait.
+Proof. repeat split; try (vm_compute; reflexivity). vm_compute; discriminate. Qed.
+Lemma ex_not_ok : ~ can_ok ex_s0 1.
+Proof. intros [H|[H|H]]; vm_compute in H; try discriminate; tauto. Qed.
+Lemma ex_holds : holds_reply ex_s0 0.
+Proof. unfold holds_reply. split; [|split]; vm_compute; eauto. Qed.
+Lemma ex_after : cp ex_s 0 = CDone true /\ cp ex_s 1 = CDone false /\ evclosed ex_s 0 = true /\ delivered ex_s 0 = 1 /\ cbcount ex_s 0 = 1.
+Proof. repeat split; vm_compute; reflexivity. Qed.
